@@ -9,6 +9,22 @@ import SstModel.Props.FuncsTie.BlockIterBack
   `SSIterator::next` (default method, instantiated for `BlockIter`) and `BlockIter::seek` compute the
   model functions `BlockIter.current` / `BlockIter.next` / `BlockIter.seek` (Model/Block.lean), panics
   included (up to the text of the panic site); for `seek`, whenever the model's own loop fuels suffice.
+
+  Hypotheses:
+  * `current` needs none (the out-parameters are returned unchanged when the iterator is not valid);
+  * `next` inherits those of `advance` (BlockIterStep.lean): `block.length < 2^64` (a `Vec<u8>`),
+    `4 ≤ block.length` (Rust's `number_restarts` slices `block[len-4..]`), `curRestartIx + 1 < 2^64`
+    (checked `usize` addition), translated fuel above the number of restarts;
+  * `seek` resets the iterator first, so it needs no bound on `curRestartIx`; the midpoint
+    `(left + right + 1) / 2` cannot overflow because both bounds stay ≤ the number of restarts < 2^32
+    (invariant `InvB`); the translated fuel must cover the model fuels `numberRestarts + 2` (binary
+    search) and `block.length + 2` (linear scan) and the restart loop of `advance`;
+    `it.seek cmp to ≠ .diverge` says that the model's own fuels suffice.
+
+  Method as in BlockIterBack.lean: the model loops `seekBinSearch` / `seekLinear` are shown to BE
+  `Rt.loopFuel`s of model steps (`stepB`, `stepL`) followed by the code behind the loop (`postB`: the
+  `assert_eq!(left, right)`; `postL`: `return` from inside the loop and falling out of it coincide), then
+  `loop_sameND` compares them with the translated loops.
 -/
 set_option linter.unusedSimpArgs false
 namespace Sst
@@ -74,7 +90,347 @@ theorem Gen_bi_next_tie (it : BlockIter) (fuel : Nat) (hlen : it.block.length < 
       cases hg : Gen.bi_current it1 [] [] <;> rw [hg] at hc <;> simp only [Res.same] at hc
       simp only [Res.bind_diverge, Res.same]
 
+/-! ### seek -/
+
+namespace FuncsTie.BlockIterSeek
+
+/-- a loop whose body never returns from the function does not either -/
+theorem loopFuel_no_ret {σ ρ : Type} (body : σ → Res (Rt.LStep σ ρ))
+    (hb : ∀ s r, body s ≠ .ok (.ret r)) :
+    ∀ (f : Nat) (s : σ) (r : ρ), Rt.loopFuel body f s ≠ .ok (.ret r) := by
+  intro f
+  induction f with
+  | zero => intro s r h; cases h
+  | succ f ih =>
+    intro s r h
+    rw [loopFuel_succ] at h
+    cases hbs : body s with
+    | ok st =>
+      rw [hbs] at h
+      cases st with
+      | cont s' => exact ih s' r h
+      | brk s' => cases h
+      | ret r' => exact hb s r' hbs
+    | err c => rw [hbs] at h; cases h
+    | panic m => rw [hbs] at h; cases h
+    | diverge => rw [hbs] at h; cases h
+
+/-- an invariant kept by `continue` and `break` steps holds of the loop result -/
+theorem loopFuel_inv {σ ρ : Type} (Inv : σ → Prop) (body : σ → Res (Rt.LStep σ ρ))
+    (hc : ∀ s s', Inv s → body s = .ok (.cont s') → Inv s')
+    (hk : ∀ s s', Inv s → body s = .ok (.brk s') → Inv s') :
+    ∀ (f : Nat) (s s' : σ), Inv s → Rt.loopFuel body f s = .ok (.done s') → Inv s' := by
+  intro f
+  induction f with
+  | zero => intro s s' _ h; cases h
+  | succ f ih =>
+    intro s s' hs h
+    rw [loopFuel_succ] at h
+    cases hbs : body s with
+    | ok st =>
+      rw [hbs] at h
+      cases st with
+      | cont s1 => exact ih s1 s' (hc s s1 hs hbs) h
+      | brk s1 =>
+        simp only [Res.ok.injEq, Rt.Flow.done.injEq] at h
+        subst h; exact hk s s1 hs hbs
+      | ret r' => cases h
+    | err c => rw [hbs] at h; cases h
+    | panic m => rw [hbs] at h; cases h
+    | diverge => rw [hbs] at h; cases h
+
+/-- the code behind a translated loop against model code of the shape `(loop >>= post) >>= rest` -/
+theorem sameND_bind_post {α β γ : Type} {r m : Res α} {k : α → Res β} {post : α → Res γ}
+    {g : γ → Res β} (h : sameND r m)
+    (hk : ∀ a, m = .ok a → sameND (k a) (post a >>= g)) : sameND (r >>= k) ((m >>= post) >>= g) := by
+  cases m with
+  | ok a =>
+    have h1 := Res.same_ok (h (by intro e; cases e))
+    rw [h1, bind_ok, bind_ok]
+    exact hk a rfl
+  | err c =>
+    have h1 := h (by intro e; cases e)
+    cases r <;> simp only [Res.same] at h1
+    subst h1; exact sameND_of_same (Res.same_refl _)
+  | panic s =>
+    have h1 := h (by intro e; cases e)
+    cases r <;> simp only [Res.same] at h1
+    exact sameND_of_same (same_panic _ _)
+  | diverge => exact sameND_diverge _
+
+/-- one iteration of the binary search; the loop variables of the translation are `(self, left, right)` -/
+def stepB {ρ : Type} (cmp : Cmp) (to : Bytes) (p : BlockIter × Nat × Nat) :
+    Res (Rt.LStep (BlockIter × Nat × Nat) ρ) :=
+  if p.2.1 < p.2.2 then
+    p.1.seekToRestartPoint ((p.2.1 + p.2.2 + 1) / 2) >>= fun it' =>
+      if cmp.cmp it'.key to == .lt then .ok (.cont (it', (p.2.1 + p.2.2 + 1) / 2, p.2.2))
+      else .ok (.cont (it', p.2.1, (p.2.1 + p.2.2 + 1) / 2 - 1))
+  else .ok (.brk p)
+
+/-- `assert_eq!(left, right)` behind the binary search -/
+def postB {ρ : Type} : Rt.Flow (BlockIter × Nat × Nat) ρ → Res (BlockIter × Nat)
+  | .done p => if p.2.1 = p.2.2 then .ok (p.1, p.2.1) else .panic "seek: left == right"
+  | .ret _ => .panic "seek: no return in the binary search"
+
+theorem seekBinSearch_eq {ρ : Type} (cmp : Cmp) (to : Bytes) : ∀ (f : Nat) (it : BlockIter) (l r : Nat),
+    BlockIter.seekBinSearch cmp it to f l r =
+      (Rt.loopFuel (stepB (ρ := ρ) cmp to) f (it, l, r) >>= postB) := by
+  intro f
+  induction f with
+  | zero => intro it l r; rfl
+  | succ f ih =>
+    intro it l r
+    unfold BlockIter.seekBinSearch
+    rw [loopFuel_succ]
+    unfold stepB
+    by_cases c : l < r
+    · rw [if_pos c, if_pos c]
+      cases hs : it.seekToRestartPoint ((l + r + 1) / 2) with
+      | ok it' =>
+        simp only [hs, bind_ok]
+        by_cases hc : (cmp.cmp it'.key to == Ordering.lt) = true
+        · rw [if_pos hc, if_pos hc]; exact ih _ _ _
+        · rw [if_neg hc, if_neg hc]; exact ih _ _ _
+      | err c => simp only [hs]; rfl
+      | panic m => simp only [hs]; rfl
+      | diverge => simp only [hs]; rfl
+    · rw [if_neg c, if_neg c]
+      rfl
+
+theorem stepB_no_ret {ρ : Type} (cmp : Cmp) (to : Bytes) (p : BlockIter × Nat × Nat) (r : ρ) :
+    stepB cmp to p ≠ .ok (.ret r) := by
+  unfold stepB
+  by_cases c : p.2.1 < p.2.2
+  · rw [if_pos c]
+    intro h
+    obtain ⟨it', _, h⟩ := bind_eq_ok h
+    by_cases hc : (cmp.cmp it'.key to == Ordering.lt) = true
+    · rw [if_pos hc] at h; cases h
+    · rw [if_neg hc] at h; cases h
+  · rw [if_neg c]; intro h; cases h
+
+/-- invariant of the binary search: the block, and both bounds at most the number of restarts -/
+def InvB (B : Bytes) (N : Nat) (p : BlockIter × Nat × Nat) : Prop :=
+  p.1.block = B ∧ p.2.1 ≤ N ∧ p.2.2 ≤ N
+
+theorem stepB_inv {ρ : Type} {B : Bytes} {N : Nat} (cmp : Cmp) (to : Bytes)
+    (p p' : BlockIter × Nat × Nat) (hp : InvB B N p)
+    (h : (stepB cmp to p : Res (Rt.LStep (BlockIter × Nat × Nat) ρ)) = .ok (.cont p')) : InvB B N p' := by
+  unfold stepB at h
+  obtain ⟨hB, hl, hr⟩ := hp
+  by_cases c : p.2.1 < p.2.2
+  · rw [if_pos c] at h
+    obtain ⟨it', hs, h⟩ := bind_eq_ok h
+    obtain ⟨hB', _⟩ := seekToRestartPoint_ok hs
+    by_cases hc : (cmp.cmp it'.key to == Ordering.lt) = true
+    · rw [if_pos hc] at h; cases h
+      exact ⟨by rw [hB']; exact hB, by show (p.2.1 + p.2.2 + 1) / 2 ≤ N; omega, hr⟩
+    · rw [if_neg hc] at h; cases h
+      exact ⟨by rw [hB']; exact hB, hl, by show (p.2.1 + p.2.2 + 1) / 2 - 1 ≤ N; omega⟩
+  · rw [if_neg c] at h; cases h
+
+theorem stepB_inv_brk {ρ : Type} {B : Bytes} {N : Nat} (cmp : Cmp) (to : Bytes)
+    (p p' : BlockIter × Nat × Nat) (hp : InvB B N p)
+    (h : (stepB cmp to p : Res (Rt.LStep (BlockIter × Nat × Nat) ρ)) = .ok (.brk p')) : InvB B N p' := by
+  unfold stepB at h
+  by_cases c : p.2.1 < p.2.2
+  · rw [if_pos c] at h
+    obtain ⟨it', hs, h⟩ := bind_eq_ok h
+    by_cases hc : (cmp.cmp it'.key to == Ordering.lt) = true
+    · rw [if_pos hc] at h; cases h
+    · rw [if_neg hc] at h; cases h
+  · rw [if_neg c] at h; cases h; exact hp
+
+/-- one iteration of the linear scan -/
+def stepL (cmp : Cmp) (to : Bytes) (s : BlockIter) : Res (Rt.LStep BlockIter BlockIter) :=
+  s.next >>= fun q =>
+    match q.2 with
+    | some kv => if cmp.cmp kv.1 to != .lt then .ok (.ret q.1) else .ok (.cont q.1)
+    | none => .ok (.brk q.1)
+
+/-- the code behind the linear scan: `return` inside the loop and falling out of it give the same -/
+def postL : Rt.Flow BlockIter BlockIter → Res BlockIter
+  | .done s => .ok s
+  | .ret r => .ok r
+
+theorem seekLinear_eq (cmp : Cmp) (to : Bytes) : ∀ (f : Nat) (it : BlockIter),
+    BlockIter.seekLinear cmp it to f = (Rt.loopFuel (stepL cmp to) f it >>= postL) := by
+  intro f
+  induction f with
+  | zero => intro it; rfl
+  | succ f ih =>
+    intro it
+    unfold BlockIter.seekLinear
+    rw [loopFuel_succ]
+    unfold stepL
+    cases hn : it.next with
+    | ok q =>
+      obtain ⟨it', o⟩ := q
+      cases o with
+      | none => rfl
+      | some kv =>
+        obtain ⟨k, v⟩ := kv
+        simp only [bind_ok]
+        by_cases hc : (cmp.cmp k to != Ordering.lt) = true
+        · rw [if_pos hc, if_pos hc]; rfl
+        · rw [if_neg hc, if_neg hc]; exact ih _
+    | err c => rfl
+    | panic m => rfl
+    | diverge => rfl
+
+theorem next_ok {s s' : BlockIter} {o : Option (Bytes × Bytes)} (h : s.next = .ok (s', o)) :
+    ∃ b, s.advance = .ok (s', b) := by
+  unfold BlockIter.next at h
+  obtain ⟨p, hp, h⟩ := bind_eq_ok h
+  obtain ⟨s1, b⟩ := p
+  refine ⟨b, ?_⟩
+  dsimp only at h
+  cases b with
+  | false =>
+    simp only [Bool.not_false, if_true, Res.pure_eq, Res.ok.injEq, Prod.mk.injEq] at h
+    rw [hp, h.1]
+  | true =>
+    simp only [Bool.not_true, Bool.false_eq_true, if_false] at h
+    obtain ⟨c, _, h⟩ := bind_eq_ok h
+    simp only [Res.pure_eq, Res.ok.injEq, Prod.mk.injEq] at h
+    rw [hp, h.1]
+
+theorem stepL_inv {B : Bytes} (cmp : Cmp) (to : Bytes) (s s' : BlockIter) (hs : Inv B s)
+    (h : stepL cmp to s = .ok (.cont s')) : Inv B s' := by
+  unfold stepL at h
+  obtain ⟨q, hq, h⟩ := bind_eq_ok h
+  obtain ⟨s1, o⟩ := q
+  obtain ⟨b, hadv⟩ := next_ok hq
+  cases o with
+  | none => cases h
+  | some kv =>
+    dsimp only at h
+    by_cases hc : (cmp.cmp kv.1 to != Ordering.lt) = true
+    · rw [if_pos hc] at h; cases h
+    · rw [if_neg hc] at h; cases h
+      exact Inv_advance hs hadv
+
+theorem divChk_ok {a b : Nat} {s : String} (h : b ≠ 0) : Rt.divChk a b s = .ok (a / b) := by
+  unfold Rt.divChk; rw [if_neg h]
+
+/-- `let right = if n == 0 { 0 } else { n - 1 }` -/
+theorem right_eq (N : Nat) (s : String) :
+    (if (N == 0) = true then (pure 0 : Res Nat) else Rt.subChk N 1 s) =
+      .ok (if N = 0 then 0 else N - 1) := by
+  by_cases h : N = 0
+  · subst h; rfl
+  · have hb : ¬ (N == 0) = true := fun e => h (eq_of_beq e)
+    rw [if_neg hb, if_neg h, subChk_ok (by omega)]
+
+/-- the model's `seek` with its `let`s spelled out -/
+theorem seek_eq (cmp : Cmp) (it : BlockIter) (to : Bytes) :
+    it.seek cmp to =
+      ((BlockIter.seekBinSearch cmp it.reset to (it.reset.numberRestarts + 2) 0
+          (if it.reset.numberRestarts = 0 then 0 else it.reset.numberRestarts - 1)) >>= fun p =>
+        (p.1.getRestartPoint p.2 >>= fun off =>
+          BlockIter.seekLinear cmp { p.1 with curRestartIx := p.2, offset := off } to
+            (p.1.block.length + 2))) := rfl
+
+end FuncsTie.BlockIterSeek
+
+open FuncsTie.BlockIterSeek
+
+theorem Gen_bi_seek_sameND (cmp : Cmp) (it : BlockIter) (to : Bytes) (fuel : Nat)
+    (hlen : it.block.length < 2 ^ 64) (h4 : 4 ≤ it.block.length)
+    (hfuel : it.block.length + it.numberRestarts + 4 < fuel) :
+    sameND (Gen.bi_seek fuel cmp it to) (it.seek cmp to) := by
+  rw [seek_eq]
+  unfold Gen.bi_seek
+  rw [Gen_bi_reset_tie, bind_ok]
+  have hN0 : it.reset.numberRestarts = it.numberRestarts := rfl
+  have hNlt := numberRestarts_lt it
+  rw [Gen_bi_number_restarts_tie it.reset h4, bind_ok, hN0]
+  have hR : (if it.numberRestarts = 0 then 0 else it.numberRestarts - 1) ≤ it.numberRestarts := by
+    split <;> omega
+  simp only [right_eq, bind_ok]
+  rw [seekBinSearch_eq (ρ := BlockIter)]
+  refine sameND_bind_post ?_ ?_
+  · -- the binary search
+    refine loop_sameND (InvB it.block it.numberRestarts) _ _ ?_ (fun p p' => stepB_inv cmp to p p')
+      _ _ _ ⟨rfl, Nat.zero_le _, hR⟩ (by omega)
+    intro p hp
+    obtain ⟨s1, l, r⟩ := p
+    obtain ⟨hB, hl, hr⟩ := hp
+    try dsimp only at hB hl hr ⊢
+    unfold stepB
+    try dsimp only
+    by_cases c : l < r
+    · have a1 : l + r < 18446744073709551616 := by omega
+      have a2 : l + r + 1 < 18446744073709551616 := by omega
+      have a3 : 1 ≤ (l + r + 1) / 2 := by omega
+      simp only [decide_eq_true c, if_true, if_pos c, addW_ok a1, addW_ok a2, bind_ok,
+        divChk_ok (show (2 : Nat) ≠ 0 by decide)]
+      refine same_bind (Gen_bi_seek_to_restart_point_tie s1 _ (by rw [hB]; exact hlen)) ?_
+      intro s2 _
+      by_cases hc : (cmp.cmp s2.key to == Ordering.lt) = true
+      · simp only [if_pos hc, Res.pure_eq]
+        exact Res.same_refl _
+      · simp only [if_neg hc, subChk_ok a3, bind_ok, Res.pure_eq]
+        exact Res.same_refl _
+    · simp only [decide_eq_false c, Bool.false_eq_true, if_false, if_neg c, Res.pure_eq]
+      exact Res.same_refl _
+  · intro a ha
+    cases a with
+    | ret x => exact absurd ha (loopFuel_no_ret _ (stepB_no_ret cmp to) _ _ _)
+    | done p =>
+      have hinv := loopFuel_inv (InvB it.block it.numberRestarts) _
+        (fun p p' => stepB_inv cmp to p p') (fun p p' => stepB_inv_brk cmp to p p')
+        _ _ _ ⟨rfl, Nat.zero_le _, hR⟩ ha
+      obtain ⟨s1, l, r⟩ := p
+      obtain ⟨hB, hl, hr⟩ := hinv
+      try dsimp only at hB hl hr ⊢
+      unfold postB
+      try dsimp only
+      by_cases hlr : l = r
+      · subst hlr
+        simp only [beq_self_eq_true, Rt.assertR, if_true, bind_ok]
+        have hl1 : s1.block.length < 2 ^ 64 := by rw [hB]; exact hlen
+        refine sameND_bind (m := s1.getRestartPoint l)
+          (sameND_of_same (Gen_bi_get_restart_point_tie { s1 with curRestartIx := l } l hl1)) ?_
+        intro off _
+        try dsimp only
+        rw [seekLinear_eq]
+        refine sameND_bind ?_ ?_
+        · -- the linear scan
+          refine loop_sameND (Inv it.block) _ _ ?_ (fun s s' => stepL_inv cmp to s s')
+            _ _ _ ⟨hB, by show l + 1 < 2 ^ 64; omega⟩ (by rw [hB]; omega)
+          intro s hs
+          obtain ⟨hsB, hsc⟩ := hs
+          have hnext := Gen_bi_next_tie s fuel (by rw [hsB]; exact hlen) (by rw [hsB]; exact h4) hsc
+            (by rw [numberRestarts_congr hsB]; omega)
+          unfold stepL
+          try simp only [if_true]
+          refine same_bind hnext ?_
+          intro q _
+          obtain ⟨s', o⟩ := q
+          cases o with
+          | none => exact Res.same_refl _
+          | some kv =>
+            obtain ⟨k, v⟩ := kv
+            try dsimp only
+            cases hcmp : cmp.cmp k to <;> exact Res.same_refl _
+        · intro a _
+          cases a <;> exact sameND_of_same (Res.same_refl _)
+      · have hb : (l == r) = false := by
+          cases hbb : (l == r) with
+          | false => rfl
+          | true => exact absurd (eq_of_beq hbb) hlr
+        simp only [hb, Rt.assertR, Bool.false_eq_true, if_false, if_neg hlr, bind_panic]
+        exact sameND_of_same (same_panic _ _)
+
+theorem Gen_bi_seek_tie (cmp : Cmp) (it : BlockIter) (to : Bytes) (fuel : Nat)
+    (hlen : it.block.length < 2 ^ 64) (h4 : 4 ≤ it.block.length)
+    (hfuel : it.block.length + it.numberRestarts + 4 < fuel) (hnd : it.seek cmp to ≠ .diverge) :
+    Res.same (Gen.bi_seek fuel cmp it to) (it.seek cmp to) :=
+  Gen_bi_seek_sameND cmp it to fuel hlen h4 hfuel hnd
+
 #print axioms Gen_bi_current_tie
 #print axioms Gen_bi_next_tie
+#print axioms Gen_bi_seek_tie
 
 end Sst
